@@ -258,6 +258,9 @@ func suiteV18(c *vctx) {
 		}
 		desc := fmt.Sprintf("kind=%s signals=%d live=%s old=%s new=%s", kind, nsig, live, old, nw)
 		c.emit("law.C18.reload_all_or_nothing "+desc, vtf(live.base == want.base && live.dflt == want.dflt))
+		// the same against the model of store.reload (Model/Reload.lean)
+		c.emit(fmt.Sprintf("rl.step %s %d %s %d %s %s", vxs(filepath.Base(old.base)), old.dflt, vxs(filepath.Base(nw.base)), nw.dflt, vtf(loadable), vtf(dirOk)),
+			fmt.Sprintf("%s %d", vxs(filepath.Base(live.base)), live.dflt))
 		c.emit("law.C18.requests_in_flight_answered "+desc, vtf(hung == 0 && answered > 0))
 	}
 }
